@@ -167,6 +167,10 @@ def make_args(sc):
         if nsub < 1 or nch % nsub:
             raise Rejected("nsub")
         c2s = (np.arange(nch) // (nch // nsub)).astype(np.int32)
+        if nsub >= 2 and nch > nsub and int(sc["dseed"]) % 3 == 0:
+            # any non-decreasing map onto [0, nsub) is a valid channel-to-sub-band table: unequal widths
+            cuts = np.sort(r.choice(np.arange(1, nch), size=nsub - 1, replace=False))
+            c2s = np.searchsorted(cuts, np.arange(nch), side="right").astype(np.int32)
         out = np.zeros(ns * nsub, np.float32)
         ref = np.zeros((ns, nsub))
         for c in range(nch):
